@@ -198,7 +198,8 @@ func parseCredential(b []byte, p *int, c *CCache, e *binary.ByteOrder) (cred *Cr
 		cred.IsSKey = true
 	}
 	cred.TicketFlags = types.NewKrbFlags()
-	cred.TicketFlags.Bytes = readBytes(b, p, 4, e)
+	// The flags are a 32 bit integer in the byte order of the file; its most significant bit is flag 0.
+	binary.BigEndian.PutUint32(cred.TicketFlags.Bytes, uint32(readInt32(b, p, e)))
 	l := int(readInt32(b, p, e))
 	need(b, p, l) // every address takes more than one byte
 	cred.Addresses = make([]types.HostAddress, l, l)
